@@ -18,6 +18,9 @@ pub struct HistCheck {
     pub classify: fn(&Machine, &mut CaseOut),
     /// property-specific closing steps, run on the machine after the tape (None = nothing)
     pub finale: Option<fn(&mut Machine) -> Result<(), Stop>>,
+    /// crash stage: one case in `n` is run again on a recording backend and its crash states are
+    /// explored with this configuration (fault_enumeration part of C07 and C13)
+    pub crash: Option<(fn(Tier) -> crate::crash::CrashCfg, u8)>,
     /// minimal tapes of listed known findings, run once per run in strict mode
     pub probes: &'static [fn() -> Tape],
 }
@@ -76,8 +79,12 @@ impl Check for HistCheck {
         }
     }
     fn plan(&self, tier: Tier) -> Plan {
+        if self.crash.is_some() {
+            // the crash budget is selected through an env var because `run` has no tier argument
+            unsafe { std::env::set_var("VERIF_TIER_INTERNAL", tier.name()) };
+        }
         let (cases, max_recs) = tier.pick(self.quick, self.thorough);
-        Plan { cases, max_recs, max_shrink_iters: 3000, workers: 16 }
+        Plan { cases, max_recs, max_shrink_iters: if self.crash.is_some() { 500 } else { 3000 }, workers: 16 }
     }
     fn run(&self, tape: &Tape, want_sample: bool) -> Result<CaseOut, Failure> {
         let (m, r) = run_machine_fin(tape, (self.profile)(tape), want_sample, false, self.finale);
@@ -89,6 +96,23 @@ impl Check for HistCheck {
         out.excluded_known = m.excluded_known;
         for c in &m.classes {
             out.class(c);
+        }
+        if let Some((ccfg, one_in)) = self.crash
+            && tape.cfg[9] % one_in == 0
+            && (self.id != "C13" || m.stats.compactions_ok > 0)
+        {
+            let tier = if std::env::var("VERIF_TIER_INTERNAL").ok().as_deref() == Some("thorough") { Tier::Thorough } else { Tier::Quick };
+            let (_, co, r) = crate::crashchecks::run_hist_with_crash(tape, (self.profile)(tape), ccfg(tier), false, false);
+            r?;
+            if let Some(co) = co {
+                let mut c = CaseOut::default();
+                crate::crashchecks::crash_classes(&co, &mut c);
+                out.evals += c.evals;
+                for (k, v) in c.classes {
+                    out.class_n(k, v);
+                }
+                out.class("case with its crash states explored");
+            }
         }
         if want_sample {
             out.sample = Some(json!({
@@ -250,6 +274,7 @@ pub fn c02() -> HistCheck {
         thorough: (300_000, 200),
         classify: c_c02,
         finale: None,
+        crash: None,
         probes: &[],
     }
 }
@@ -303,6 +328,7 @@ pub fn c05() -> HistCheck {
         thorough: (600_000, 160),
         classify: c_c05,
         finale: Some(finale_drain),
+        crash: None,
         probes: &[],
     }
 }
@@ -347,6 +373,7 @@ pub fn c07() -> HistCheck {
         thorough: (600_000, 200),
         classify: c_c07,
         finale: Some(finale_drain),
+        crash: Some((cc_c07, 12)),
         probes: &[],
     }
 }
@@ -398,6 +425,7 @@ pub fn c13() -> HistCheck {
         thorough: (200_000, 260),
         classify: c_c13,
         finale: None,
+        crash: Some((cc_c13, 5)),
         probes: &[probe_c13_empty_compact],
     }
 }
@@ -502,6 +530,14 @@ fn finale_c17(m: &mut Machine) -> Result<(), Stop> {
     Ok(())
 }
 
+fn cc_c07(tier: Tier) -> crate::crash::CrashCfg {
+    crate::crash::CrashCfg { max_states: tier.pick(80, 400), exhaustive_w: tier.pick(3, 6), per_instant: tier.pick(3, 5), nested_depth: 1, nested_states: 1, check_integrity: false, continue_writes: false, phases: &[] }
+}
+
+fn cc_c13(tier: Tier) -> crate::crash::CrashCfg {
+    crate::crash::CrashCfg { max_states: tier.pick(150, 800), exhaustive_w: tier.pick(4, 7), per_instant: tier.pick(5, 8), nested_depth: 1, nested_states: 1, check_integrity: false, continue_writes: false, phases: &["compact"] }
+}
+
 pub fn c17() -> HistCheck {
     HistCheck {
         id: "C17",
@@ -512,6 +548,7 @@ pub fn c17() -> HistCheck {
         thorough: (1_000_000, 160),
         classify: c_c17,
         finale: Some(finale_c17),
+        crash: None,
         probes: &[],
     }
 }
